@@ -25,6 +25,8 @@ func checkC12(c *Ctx) {
 	checkIngressRefusals(c, "C12.R3")
 	checkTokenBucket(c, "C12.R4")
 	checkEvictionShortfall(c, "C12.R5")
+	c.Rule("C12.R6", "a capacity refusal is decided on the stored depth: on the inlined view of each SQLite enqueue operation every point that yields ErrQueueFull is reached only through a call that reads the depth from the database (queue_counters or a COUNT over queue_items) in the same invocation — never from a verdict remembered in process memory, which autocommit writers (operator cancel, retention) do not invalidate")
+	checkRefusalReadsStoredDepth(c, "C12.R6")
 }
 
 // checkEvictInsertOneTx: SQL drop-oldest statements execute inside the same transaction function as the INSERT.
